@@ -293,23 +293,23 @@ def _concat_rule(ctx, mdl):
         parts = [it.construct('path.Path', segs[0]), it.construct('path.Path', segs[1], segs[2]), it.construct('path.Path', segs[3])]
         from svtstatic import builtins_model as bm
         it.call_hooks['misctools.isclose'] = lambda it2, a, k: bm.call_ext(it2, 'numpy.isclose', a, k)
+        before = [dict(s.attrs) for s in segs]          # the segments as they were handed in (they must not be edited in place either)
         r = it.call(it.closure_of('path.concatpaths'), [parts], {})
         got = list(r.attrs['_segments'])
-        return [(g is s, g.cls.name if isinstance(g, Obj) else None, g.attrs if isinstance(g, Obj) else None) for g, s in zip(got, segs)], len(got), segs
+        return [(g is s, g.cls.name if isinstance(g, Obj) else None, dict(g.attrs) if isinstance(g, Obj) else None) for g, s in zip(got, segs)], len(got), \
+            [(s.cls.name, before[i]) for i, s in enumerate(segs)]
 
     def judge(v):
         rows, n, segs = v
         if n != len(segs):
             return False, '%d segments come back for %d' % (n, len(segs))
         for i, (same, cname, attrs) in enumerate(rows):
-            if same:
-                continue
-            # a rebuilt segment is acceptable only if it is the same curve
-            s = segs[i]
-            if cname != s.cls.name:
+            # the very object or a rebuilt one: in both cases it has to be the curve that was handed in
+            cname0, attrs0 = segs[i]
+            if cname != cname0:
                 return False, 'segment %d comes back as a %s' % (i, cname)
             for k_ in ('start', 'control', 'control1', 'control2', 'end'):
-                if k_ in s.attrs and not to_rat(attrs.get(k_, 0)).equals(to_rat(s.attrs[k_])):
-                    return False, 'segment %d comes back with another %s (%s instead of %s)' % (i, k_, short(attrs.get(k_), 20), short(s.attrs[k_], 20))
+                if k_ in attrs0 and not to_rat(attrs.get(k_, 0)).equals(to_rat(attrs0[k_])):
+                    return False, 'segment %d comes back with another %s (%s instead of %s)' % (i, k_, short(attrs.get(k_), 20), short(attrs0[k_], 20))
         return True, ''
     Obligation(ctx, 'R05.4').run(fc, 'concatpaths keeps every segment of its parts as it is, in order (breaks of any size stay breaks)', th, judge)
